@@ -54,6 +54,7 @@ Lanes1 == {<<0>>}
 Lanes2 == {<<0>>, <<1>>}
 Lanes4 == {<<0>>, <<1>>, <<2>>, <<1, 2>>}
 Lanes3 == {<<0>>, <<1>>, <<1, 2>>}
+Lanes4b == {<<1>>, <<2>>, <<1, 2>>, <<2, 1>>}
 Lanes5 == {<<0>>, <<1>>, <<2>>, <<1, 2>>, <<2, 1>>}
 BoolBoth == {TRUE, FALSE}
 BoolTrue == {TRUE}
